@@ -1008,6 +1008,11 @@ func catalogue() []seqCase {
 		opT{kind: "exec", k: 0}, opT{kind: "exec", k: 1, m: &b}, opT{kind: "dump"})
 	add("mixed", 60, opT{kind: "load", k: 0, age: 20, ml: 10, cl: 60, m: &a}, opT{kind: "exec", k: 0}, opT{kind: "exec", k: 0, m: &b},
 		opT{kind: "exec", k: 0}, opT{kind: "dump"})
+	// repeated hits do not wear the entry out and do not re-store it
+	add("mixed", 0, opT{kind: "load", k: 0, age: 3, ml: 10, cl: 10, m: &plain}, opT{kind: "exec", k: 0}, opT{kind: "exec", k: 0},
+		opT{kind: "dump"}, opT{kind: "exec", k: 0})
+	add("mixed", 60, opT{kind: "load", k: 0, age: 13, ml: 10, cl: 60, m: &plain}, opT{kind: "exec", k: 0}, opT{kind: "exec", k: 0},
+		opT{kind: "dump"}, opT{kind: "exec", k: 0})
 	// expiry while in the map
 	one := msgT{0, false, []rrT{rr(0, 1), rr(1, 9)}}
 	add("wait", 0, opT{kind: "exec", k: 0, m: &one}, opT{kind: "exec", k: 0}, opT{kind: "wait", wait: 1}, opT{kind: "exec", k: 0}, opT{kind: "dump"})
